@@ -43,6 +43,21 @@ St == Stats(XX, PP)
 \* point).  Fitted parameters are logged in the unit of the integers, outputs as they are (see Scaling.tla).
 Dn(j) == Pow2(In.sh[j])
 
+\* Memory layout of every record matrix handed to the code (In.lay): the logical matrix is the same, the strides the
+\* code saw (logged by the harness as st = <<row stride, column stride>>) must be those of the named layout.  An axis
+\* of length < 2 has no meaningful stride.
+LayStrides(lay, nr, nc) ==
+  CASE lay = "c"    -> <<nc, 1>>               \* row-major
+    [] lay = "f"    -> <<1, nr>>               \* column-major owned array
+    [] lay = "t"    -> <<1, nr>>               \* transpose of a row-major (nc x nr) matrix
+    [] lay = "revr" -> <<0 - nc, 1>>           \* rows stored in reverse order, axis inverted
+    [] lay = "revc" -> <<nc, -1>>              \* columns stored in reverse order, axis inverted
+    [] lay = "step" -> <<4 * nc, 2>>           \* every second row / column of a (2 nr x 2 nc) buffer
+StridesOk(st, nr) ==
+  /\ Len(st) = 2
+  /\ (nr >= 2 /\ PP >= 1) => st[1] = LayStrides(In.lay, nr, PP)[1]
+  /\ (PP >= 2 /\ nr >= 1) => st[2] = LayStrides(In.lay, nr, PP)[2]
+
 Sl  == 1                                   \* cells, offsets, means (grid units of 1/S)
 SlP == 2                                   \* scales (grid units of 1/SP)
 SlW == IF In.ft = "f32" THEN 20 ELSE 4     \* covariance entries (grid units of 1/S)
@@ -69,6 +84,7 @@ RankOk == Kind # "wh" \/ FullRank(XX, PP)
 (* fit *)
 FitLinOk ==
   /\ Ev.ok
+  /\ StridesOk(Ev.st, NN)
   /\ Ev.nfo = <<>> /\ Ev.nfs = <<>> /\ Ev.nfs1 = <<>>
   /\ Len(Ev.off) = PP /\ Len(Ev.sc) = PP /\ Len(Ev.sc1) = PP
   /\ LET st == St IN
@@ -76,6 +92,7 @@ FitLinOk ==
 
 FitWhOk ==
   /\ Ev.ok
+  /\ StridesOk(Ev.st, NN)
   /\ Ev.nfo = <<>> /\ Ev.nfs = <<>>
   /\ Ev.wr = PP /\ Ev.wc = PP /\ Len(Ev.mean) = PP
   /\ LET st == St IN
@@ -91,6 +108,7 @@ FitOk ==
 (* apply *)
 ShapeOk(rows) ==
   /\ Ev.form = (IF Ev.batch \in {"train", "sel"} THEN "ds" ELSE "arr")        \* the calling form the harness reports
+  /\ StridesOk(Ev.st, Len(rows))
   /\ Ev.nr = Len(rows) /\ Ev.nc = PP /\ Len(Ev.out) = Len(rows)
   /\ \A r \in 1..Len(rows) : Len(Ev.out[r]) = PP
 
